@@ -49,6 +49,34 @@ class Ctx:
         r = Rule(self, rid, title, necessary)
         self.rules.append(r)
         return r
+    def borrow(self, modname, rule_ids, why=''):
+        """rules decided under another property that this property relies on too: run that module's rules on the same
+        program and adopt the named ones, so that this property's own check reports their violations"""
+        import importlib
+        cache = self.__dict__.setdefault('_borrowed', {})
+        key = (modname, self.flavour)
+        if key not in cache:
+            sub = Ctx(self.prop, self.tier, self.seed, self.root)
+            sub._progs, sub.flavour = self._progs, self.flavour
+            sub.__dict__['_borrowed'] = cache
+            try:
+                importlib.import_module('lecverif.props.' + modname).run(sub)
+                cache[key] = (sub, None)
+            except AnalysisBroken as e:
+                cache[key] = (sub, str(e))
+        sub, err = cache[key]
+        got = set()
+        for r in sub.rules:
+            if r.id in rule_ids and r.id not in got and not any(x is r for x in self.rules):
+                got.add(r.id)
+                if why and '(shared' not in r.title:
+                    r.title = r.title + f' (shared with {modname.upper()}: {why})'
+                self.rules.append(r)
+        for rid in rule_ids:
+            if rid not in got and not any(x.id == rid for x in self.rules):
+                rr = self.rule(rid, f'shared with {modname.upper()}')
+                rr.undecided('<shared rule>', msg=f'{modname}.{rid} could not be evaluated' + (f': {err}' if err else ''))
+
     def assume(self, text):
         if text not in self.assumptions:
             self.assumptions.append(text)
